@@ -19,6 +19,8 @@ def pval(d, mod_ns):
   if k == "bits_value": return mk_bits(d["n"])(d["v"])
   if k == "struct_type":
     return mk_bitstruct(d["name"], {fn: mk_bits(w) for fn, w in d["fields"]})
+  if k == "struct_value":
+    return mk_bitstruct(d["name"], {fn: mk_bits(w) for fn, w in d["fields"]})(*[mk_bits(w)(x) for (fn, w), x in zip(d["fields"], d["v"])])
   if k == "func":
     return (lambda x: x)
   if k == "object":
